@@ -1,5 +1,5 @@
 (* C18 driver: one case per input line, one result line per case (see harness/C18 for the format).
-   argv[3] = variant: repaired | defective | modefix | curmfix *)
+   argv[3] = variant: repaired | defective (modefix / curmfix = one fix only, for triage) *)
 let npaths = 5
 let kv toks =
   List.filter_map (fun t -> match String.index_opt t '=' with
@@ -61,14 +61,15 @@ let show_phase = function
 let show_res = function
   | ROk -> "ok" | RErr -> "err" | RErrRolledBack -> "err:rolledback" | RErrRbFailed -> "err:rbfailed"
   | RCrash -> "crash" | RRbOk -> "rb:ok" | RRbErr -> "rb:err" | RCleared -> "cleared" | REdited -> "edited"
+let show_ver = function MonNone -> "-" | MonOk -> "ok" | MonMixed -> "STALE" | MonNa -> "na"
 let show_mon = function MonNone -> "-" | MonOk -> "ok" | MonMixed -> "MIXED" | MonNa -> "na"
-let observe w res mon =
+let observe ?(ver="-") w res mon =
   let ph = match w.jr with None -> "none" | Some j -> show_phase j.j_phase in
   let sn = List.filter (fun v -> match w.snaps (n_of_int v) with
       | Some d -> d.s_meta <> None | None -> false) (List.init 64 (fun i -> i)) in
   let sns = if sn = [] then "-" else String.concat "+" (List.map string_of_int sn) in
   let fsd = String.concat "," (List.init npaths (fun p -> spec_of_file (w.fs (n_of_int p)))) in
-  Printf.sprintf "%s j=%s cur=%d sn=%s fs=%s mon=%s" res ph (int_of_n w.cur) sns fsd mon
+  Printf.sprintf "%s j=%s cur=%d sn=%s fs=%s mon=%s ver=%s" res ph (int_of_n w.cur) sns fsd mon ver
 let rec split_ops toks cur acc = match toks with
   | [] -> List.rev (if cur = [] then acc else List.rev cur :: acc)
   | ";" :: r -> split_ops r [] (if cur = [] then acc else List.rev cur :: acc)
@@ -104,7 +105,7 @@ let () =
             | "edit" :: r -> let m = kv r in OpEdit (n_of_int (int_of_string (get m "p")), file_of_spec (get m "f"))
             | _ -> failwith "badop" in
           let (w', (r, mo)) = step v !w opv in
-          w := w'; observe w' (show_res r) (show_mon mo)) ops in
+          w := w'; observe ~ver:(show_ver (step_ver opv w' r)) w' (show_res r) (show_mon mo)) ops in
       if segs = [] then print_endline (observe !w "init" "-")
       else print_endline (String.concat " | " segs)
     | _ -> print_endline "badline"
